@@ -7,8 +7,8 @@ import (
 	"harness/core"
 	"harness/econc"
 
-	vsync "github.com/irai/packet/verifshim/vsync"
 	"github.com/irai/packet/verifshim/vsched"
+	vsync "github.com/irai/packet/verifshim/vsync"
 )
 
 // Engine self tests: the explorer must find the seeded toy bugs at the expected bound and nothing else.
